@@ -86,7 +86,8 @@ class C06(Prop):
                 else:
                     row.append(g.choice(PLAIN))
             rows.append(row)
-        return {"null_key": nk, "null_spelling": g.choice(NULLS[nk]), "rows": rows, "textcol": textcol,
+        return {"undeclared": g.choice([0, 0, 0, 1, 2]) if nc >= 3 else 0, "touch_then_nan": g.random() < 0.25,
+                "null_key": nk, "null_spelling": g.choice(NULLS[nk]), "rows": rows, "textcol": textcol,
                 "wrap": g.random() < 0.2 and nc >= 3, "policy_null": g.choice(["strict", "strict", "none"]),
                 "nkw": neutral_read_kw(g, exclude=("null_policy",)), "engine": g.choice(["numpy", "normal"]), "vers": g.choice([1.2, 2.0]), "case": g.choice(["upper", "upper", "lower", "preserve"]),
                 "channel": draw_read_channel(g, ascii_only=True), "policy": Policy.draw(st.io).to_json(),
@@ -97,7 +98,8 @@ class C06(Prop):
         nc = len(sc["rows"][0])
         lines = docmodel.version_section(sc["vers"], "YES" if sc["wrap"] else "NO")
         lines += docmodel.well_section(100.0, 101.0, 0.5, sc["null_spelling"], "M", (("COMP", "", "ACME", "COMPANY"),), version=sc["vers"])
-        lines += docmodel.curve_section([("DEPT", "M", "", "index")] + [("C%d" % j, "U", "", "curve %d" % j) for j in range(1, nc)])
+        nd = nc - (0 if sc["wrap"] else sc.get("undeclared", 0))     # the last columns are not declared in ~C (unwrapped files only)
+        lines += docmodel.curve_section(([("DEPT", "M", "", "index")] + [("C%d" % j, "U", "", "curve %d" % j) for j in range(1, nc)])[:nd])
         lines.append("~ASCII")
         for r in sc["rows"]:
             if sc["wrap"]:
@@ -173,6 +175,19 @@ class C06(Prop):
                 # a finite sample whose printed form is numerically the NULL marker legitimately reads back as NaN
                 res.count("write-half-skipped-sample-prints-as-null")
             elif sc["policy_null"] == "strict" and sc["textcol"] is None:
+                if sc.get("touch_then_nan"):
+                    # the data table is looked at, then a sample is set to NaN in place, then the file is written
+                    try:
+                        las.data
+                        las.index
+                    except Exception:
+                        pass
+                    for j in range(1, nc):
+                        a = np.asarray(curves[j].data)
+                        if a.dtype.kind == "f" and len(a):
+                            las.curves[j].data[(j * 7) % len(a)] = np.nan
+                            break
+                    res.count("in-place-nan-after-table-access")
                 try:
                     out = write_via(fs, las, sc["out"], sc["wkw"], tag="c06")
                     back = read_via(fs, out, {"channel": "stringio", "codec": "utf-8", "explicit": False, "newline": "\n"},
